@@ -2699,7 +2699,8 @@ class netcdf(PseudoNetCDFFile, NetCDFFile):
 
     def close(self):
         try:
-            return NetCDFFile.close(self)
+            if self.isopen():
+                return NetCDFFile.close(self)
         except Exception as e:
             warn(str(e))
 
